@@ -153,6 +153,9 @@ def cases_c08(ctx):
         for f in ["types.ts", "commands.ts", "events.ts", "index.ts", ".typecache"]:
             hs.append(([RUN(), DEL(f), RUN()], build))
         hs.append(([RUN(), RUN()], build))
+        # edits after which every rewritten file is *shorter* than before (a writer must replace, not overlay)
+        hs.append(([EDIT("struct_field_add"), EDIT("enum_variant"), RUN(), EDIT("struct_field_add", -1), EDIT("enum_variant", -1), RUN()], build))
+        hs.append(([EDIT("output_mode"), RUN(), EDIT("output_mode"), RUN()], build))
         hs.append(([EDIT("output_mode"), RUN(), EDIT("validator"), RUN()], build))
         hs.append(([EDIT("visualize_deps"), RUN(), DEL("dependency-graph.txt"), RUN()], build))
     # sequences of two edits (quick: a rotating sample; thorough: all ordered pairs) on the CLI path
